@@ -1,5 +1,6 @@
 import Jwt.Lemmas.Verify
 import Jwt.Props.C11
+import Jwt.Lemmas.Pipeline
 /-!
 # C06 — arbitrary token bytes: terminating, in-bounds, rejected unless well-formed
 
@@ -74,5 +75,24 @@ theorem C06_bounds (src buf : Bytes) (z : Nat) (hz : padCount src.length = some 
 example : (46 : UInt8) ∉ ([101, 51, 48] : Bytes) := by decide
 example : ∃ a b : Bytes, ([101, 46, 102] : Bytes) = a ++ [46] ++ b ∧ (46 : UInt8) ∉ a ∧ (46 : UInt8) ∉ b :=
   ⟨[101], [102], by decide⟩
+
+/-- **The parse path is the source's.** The order of the tests of `jwt_parse`, `jwt_parse_head` and
+`jwt_parse_payload` is *generated* from `jwt-verify.c` (`Jwt/Generated/Pipeline.lean`); the model parses a token
+exactly when the generated `jwt_parse` returns 0, so everything proved about `parse` (C06_reject, C06_no_dots) is about
+the order of tests that is in the code now. -/
+theorem C06_parse_is_source (jc : JsonCodec) (tok : Bytes) (x1 x2 x3 x4 x5 x6 : Bool) :
+    ((∃ p, parse jc tok = .ok p) ↔ (parseGen jc tok x1 x2 x3 x4 x5 x6).1 = 0) ∧
+    ((parseGen jc tok x1 x2 x3 x4 x5 x6).1 = 0 ∨ (parseGen jc tok x1 x2 x3 x4 x5 x6).1 = 1) :=
+  parse_generated jc tok x1 x2 x3 x4 x5 x6
+
+/-- a header segment is taken exactly when the generated `jwt_parse_head` returns 0, and every refusal writes a message -/
+theorem C06_head_is_source (jc : JsonCodec) (head : Bytes) (x1 x2 x3 : Bool) :
+    ((∃ hs a, decodeToJson jc head = some hs ∧ parseHeadAlg hs = .ok a) ↔ (parseHeadGen jc head x1 x2 x3).1 = 0) ∧
+    ((parseHeadGen jc head x1 x2 x3).2 = true ↔ (parseHeadGen jc head x1 x2 x3).1 = 1) :=
+  ⟨(parseHead_generated jc head x1 x2 x3).1, (parseHead_generated jc head x1 x2 x3).2.2⟩
+
+-- the premises are met: a token without dots, one with a single dot, one whose header is not base64
+example : (Jwt.Generated.Pipeline.parse false true false false false).1 = 1 := by decide
+example : (Jwt.Generated.Pipeline.parse false false false false false).1 = 0 := by decide
 
 end Jwt.Props.C06
